@@ -594,12 +594,12 @@ class Header:
         :class:`~sigpyproc.io.fileio.FileWriter`
             A file writer object to write data to.
         """
-        if nbits is None:
-            nbits = self.nbits
         if updates is None:
             updates = {}
-        if nbits != self.nbits:
-            updates["nbits"] = nbits
+        if nbits is None:
+            nbits = updates.get("nbits", self.nbits)
+        # The header must declare the depth the writer packs with
+        updates = {**updates, "nbits": nbits}
         new_hdr = self.new_header(updates)
         out_file = FileWriter(
             filename,
